@@ -34,22 +34,23 @@ DRIVER = "drv_engine"
 HARNESS_BIN = "engine"
 HARNESS_FEATURES = ""
 
-# toggle sets tried for attribution, most specific first
-TOGGLE_SETS = [
-    ["f3"],
-    ["f3", "f31"],                               # = fixes/F3-… + fixes/F31-… on top of the committed fixes
-    ["f3", "f31", "f32"],
-]
+# toggle sets tried for attribution, most specific first.  F3/F31/F32 were repaired in /repo by 1f41826 (model
+# toggles f34 f35 f36, on by default): no known finding is left for C06, nothing is attributed any more; the
+# historical toggles f3 / f31 / f32 (earlier candidate repairs) stay in the model for Props/C06Inc.lean only.
+TOGGLE_SETS = []
 
 PARTIAL = [
-    "cycle_incremental (values after edits that create/remove cycles equal the from-scratch values) is FALSE for the "
-    "code as it is: findings F3, F31, F32 (canonical replays in corpus/engine-cyclic, kernel-checked witnesses in "
-    "Props/C06Inc.lean, checked against the real engine on every run). Fixed in /repo, replays now clean: F2 (531aeb1), "
-    "F16 (3fbfd09), F33 (4685b5a); F30 (hang of repair_transitive_firewall_callees) is no longer reproducible since the "
-    "F1 fix 2abe9f6 keeps firewall sets accurate (its replay returns the from-scratch values; a recurrence is a "
-    "VIOLATION). The same fix made F32 more frequent: a distrusted clean edge into a cycle re-runs one member alone "
-    "(even after an EMPTY session). Not proved for a repaired configuration: the toggled model {f3,f31,f32} meets the "
-    "oracle on every generated case it is asked about, which is evidence, not a theorem.",
+    "cycle_incremental (values after edits that create/remove cycles equal the from-scratch values) is NOT a theorem: "
+    "it is decided by the correspondence (full model = implementation line by line, incl. the state-level tie) and "
+    "the from-scratch oracle on generated cyclic programs x edit histories. It was FALSE for the code as found: "
+    "findings F2, F16, F33 (fixed 531aeb1, 3fbfd09, 4685b5a), F30 (gone with 2abe9f6) and F3, F31, F32, repaired by "
+    "1f41826 (a run that ends inside an SCC records no observations, carries itself in its transitive-firewall set "
+    "and propagates like a firewall): the design was found with the model as a testbed (toggles f34 f35 f36: 0 "
+    "failing lines on 720 000 lines of the cyclic stream under both walk orders, 2 370 before), the patched "
+    "implementation equals that model on 30 000 cyclic cases incl. executor sets, acyclic behaviour is unchanged. "
+    "Kernel-checked witnesses for every historical defect and for its repair are in Props/C06Inc.lean "
+    "(cycle_incremental_asis_fails_* / _fixed_*). No known finding is left: any wrong value, panic or hang on a "
+    "cyclic case is a VIOLATION.",
     "concurrent requests (two tasks entering one SCC from two sides) are outside these sequential models (C02's LTS); "
     "this includes the interleaving of the engine's own spawned repair tasks when a query has >= 2 transitive firewall "
     "callees or backward projections (cases marked order-sensitive). Finding F33 (a hang of check_cyclic_internal in "
